@@ -73,15 +73,23 @@ Definition is_top_n_setb (ks : okeys) (n : Z) (rows out : list row) : bool :=
 (* ---- the differential cases of engine c05 ---- *)
 Inductive c05_case :=
 | InProc (c : c15_case)        (* one implementation, in-process, exact events *)
-| Cli (mode : out_mode) (nested : bool) (ks : list (bool * expr)) (n : Z) (file_rows : list row) (ob : observation).
-                               (* the built CLI over a JSON file: SELECT * FROM f [ORDER BY ks] LIMIT n *)
+| Cli (mode : out_mode) (nested : bool) (noretr : bool) (ks : list (bool * expr)) (n : Z) (src_rows : list row) (ob : observation)
+                               (* the built CLI: SELECT ... FROM S [ORDER BY ks] LIMIT n, where the source S is a JSON file
+                                  (noretr = true) or a GROUP BY ... TRIGGER COUNTING k over it (noretr = false: it retracts);
+                                  src_rows = the final bag of S *)
+| CliLimitOf (n : Z) (ref_rows : list row) (ob : observation).
+                               (* the built CLI: Q LIMIT n against Q itself (run without the LIMIT) for queries Q that are
+                                  not modelled here (an end-of-stream flushing GROUP BY above an inner LIMIT ...) *)
 
 Definition c05_tie (c : c05_case) : bool :=
   match c with
   | InProc c' => c15_tie c'
-  | Cli mode nested ks n rows ob =>
+  | Cli mode nested noretr ks n rows ob =>
+      (* with ORDER BY, or when the source retracts, the printed list depends on the bag only (sorted by keys, then
+         values); a retraction-free source without ORDER BY is printed in arrival order = the file's order *)
       forallb (fun k => forallb (fun x => expr_ok (length x) (snd k)) rows) ks &&
-      obs_eqb (obs_of_rows (printed mode nested (okeys_of ks) (Some n) true (map (fun x => Rec (ins x)) rows))) ob
+      obs_eqb (obs_of_rows (printed mode nested (okeys_of ks) (Some n) noretr (map (fun x => Rec (ins x)) rows))) ob
+  | CliLimitOf _ _ _ => true
   end.
 
 Definition c05_spec (c : c05_case) : bool :=
@@ -99,13 +107,18 @@ Definition c05_spec (c : c05_case) : bool :=
           (n <? 0) || (noretr && negb (insert_only (records inp))) || is_top_nb (okeys_of ks) n rows out
       | _, _ => false
       end
-  | Cli mode nested ks n rows ob =>
+  | Cli mode nested _ ks n rows ob =>
       match ob with
       | ObsRows out =>
           (n <? 0) ||
           if nested && (match mode with BatchTable => true | _ => false end)
           then is_top_n_setb (okeys_of ks) n rows out
           else is_top_nb (okeys_of ks) n rows out
+      | _ => false
+      end
+  | CliLimitOf n ref ob =>
+      match ob with
+      | ObsRows out => (n <? 0) || is_limit_ofb n ref out
       | _ => false
       end
   end.
